@@ -217,7 +217,7 @@ def main(argv=None):
         MAX_CONFIRMED = int(os.environ.get("VERIF_MAX_REPLAYS", "2"))
         violations.sort(key=lambda x: x[1].time)
         rlock = threading.Lock()
-        pool = K.Pool(min(4, len(violations)))
+        pool = K.Pool(min(3, len(violations)))
         skipped = []
 
         def replay_one(h, r, unknown):
@@ -249,8 +249,14 @@ def main(argv=None):
                 tests = [f"#[test]\nfn kani_concrete_playback_manual_{v}() {{\n    let concrete_vals: Vec<Vec<u8>> = vec![vec![{v}]];\n"
                          f"    kani::concrete_playback_run(concrete_vals, {h.name});\n}}\n" for v in range(int(h.kv["hang_domain"]))]
             if not tests:
+                bt = K.boundary_candidates(h)
+                if bt:
+                    tests = [bt]
+                    strict_replay.add(h.full)   # candidates may also trip assumes: only a panic at a reported location counts
+            if not tests:
                 # unwinding / timeouts etc.: cannot produce a concrete input -> inconclusive, never VIOLATION
-                why = "concrete playback timed out" if "concrete playback timed out" in pout else "no concrete playback produced"
+                why = ("concrete playback timed out" if "concrete playback timed out" in pout else
+                       "concrete playback ran out of memory" if "memory allocation of" in pout else "no concrete playback produced")
                 with open(os.path.join(C.BUILD, "logs", h.name + ".playback.log"), "w") as f:
                     f.write(pout[-200000:])
                 return ("not", (h, why))
@@ -289,7 +295,7 @@ def main(argv=None):
                 with rlock:
                     (confirmed if kind == "confirmed" else not_reproduced).append(val)
 
-        rts = [threading.Thread(target=rworker) for _ in range(min(4, len(violations)))]
+        rts = [threading.Thread(target=rworker) for _ in range(min(3, len(violations)))]
         for t in rts:
             t.start()
         for t in rts:
